@@ -63,7 +63,7 @@ Open(tok, r) == IF r # <<>> /\ Head(r) \in {"(", "(("} THEN <<tok, " ">> ELSE <<
 PE(name) == [k |-> "ParamExp", Param |-> Lit(name)]
 PEShort(name) == PE(name) @@ ("Short" :> TRUE)
 BinA(op, a, b) == [k |-> "BinaryArithm", Op |-> op, X |-> a, Y |-> b]
-NArith == 15
+NArith == 18
 RECURSIVE DArith(_, _)
 DArith(p, d) ==
   LET c == IF d = 0 THEN Ch(p) % 3 ELSE Ch(p)
@@ -90,6 +90,10 @@ DArith(p, d) ==
     [] c = 10 -> LET a == DArith(p + 1, d - 1) IN
          Res(a.pos, Need2(nd, a.need), L1(LAMBDA u : BinA("=", LW("i"), u), a),
              <<"i", "=">> \o a.r, a.v, a.x)
+    [] c = 15 -> Res(p + 1, nd, Tri(BinA("**", LW("i"), LW("2"))), <<"i", "**", "2">>, All, None)
+    [] c = 16 -> Res(p + 1, nd, Tri(BinA("+=", LW("i"), BinA("<<", LW("1"), LW("2")))), <<"i", "+=", "1", "<<", "2">>, All, None)
+    [] c = 17 -> Res(p + 1, nd, Tri([k |-> "UnaryArithm", Op |-> "!", X |-> [k |-> "UnaryArithm", Op |-> "~", X |-> LW("i")]]),
+                     <<"!", "~", "i">>, All, None)
     [] c = 13 ->   \* ($x) : redundant parentheses directly around a simple parameter (two Simplify rules meet here)
          Res(p + 1, nd, Tri([k |-> "ParenArithm", X |-> W(<<PEShort("x")>>)]), <<"(", "$x", ")">>, All, None)
     [] c = 14 ->   \* (${x}) + 1
@@ -268,7 +272,7 @@ Redirs == <<
 CallOf(args) == [k |-> "CallExpr", Args |-> args]
 StmtOf(cmd)  == [k |-> "Stmt", Cmd |-> cmd]
 Assign(name, w) == [k |-> "Assign", Name |-> Lit(name), Value |-> w]
-NCmd == 35
+NCmd == 36
 
 \* Commands allowed without nesting budget: 0..5
 DCmd(p, d) ==
@@ -458,6 +462,10 @@ DCmd(p, d) ==
          Res(w.pos, Need2(nd, w.need),
              L1(LAMBDA u : [k |-> "CoprocClause", Stmt |-> StmtOf(CallOf(<<LW("cmd"), u>>))], w),
              <<"coproc", "<SP>", "cmd", "<SP>">> \o w.r, w.v \cap BashLike, w.x \cap BashLike)
+    [] c = 35 ->   \* case $x in (esac) cmd ;; esac : a pattern that spells a reserved word needs its opening parenthesis
+         Res(p + 1, nd, Tri([k |-> "CaseClause", Word |-> W(<<PEShort("x")>>), Items |-> <<
+               [k |-> "CaseItem", Op |-> ";;", Patterns |-> <<LW("esac")>>, Stmts |-> <<StmtOf(CallOf(<<LW("cmd")>>))>>] >>]),
+             <<"case", "<SP>", "$x", "<SP>", "in", "<SP>", "(esac)", "<SP>", "cmd", "<SEP>", ";;", "<SP>", "esac">>, All, None)
     [] c = 34 ->   \* { }  : an empty compound list is valid in mksh and zsh only
          Res(p + 1, nd, Tri([k |-> "Block"]), <<"{", "<SP>", "}">>, {"mksh", "zsh"}, {"bash", "bats", "posix"})
     [] c = 33 ->   \* for i in W; { B; }  : deprecated brace form, Norm clears Braces
